@@ -24,7 +24,7 @@ func (c *c17Case) Main()          { c.Inner.Main() }
 func (c *c17Case) Env() *Env      { return c.Inner.Env() }
 
 func genC17(d *Draw) Case {
-	fams := []string{"C01", "C03", "C06", "C08", "C10", "C11", "C04", "C14", "C05"}
+	fams := []string{"C01", "C03", "C06", "C08", "C10", "C11", "C04", "C14", "C05", "TIM", "C18"}
 	fam := fams[d.N(len(fams))]
 	var inner Case
 	switch fam {
@@ -50,6 +50,10 @@ func genC17(d *Draw) Case {
 		inner = genC14(d)
 	case "C05":
 		inner = genC05(d)
+	case "TIM":
+		inner = genC07Timers(d) // timer catch events on a mock clock that is jumped while tasks are answered
+	case "C18":
+		inner = genC18(d) // a process set: several instances, message flows, throws
 	}
 	if pc, ok := inner.(*ProcCase); ok {
 		pc.Stress = &Stress{Subs: d.N(3), Readers: d.N(3), ConcAnswers: d.Bool(), Waiters: d.N(3)}
@@ -66,7 +70,7 @@ func checkC17(cc Case, r *simrt.Result) *Outcome {
 	}
 	var io *Outcome
 	switch c.Family {
-	case "C01":
+	case "C01", "TIM":
 		io = Props["C01"].Check(c.Inner, r)
 	default:
 		io = Props[c.Family].Check(c.Inner, r)
